@@ -58,6 +58,16 @@ package controlcommands
 //@   ensures sent
 //@   ensures sendErr ==> deleted && err != nil && resp == nil
 //@   ensures timedOut ==> deleted
+// "within its response timeout, with ... that target's own reply or an error saying it ... did not answer": the wait is
+// bounded by THIS command's timeout, and a response handed back is the one stored in the call that was registered for
+// this command and target
+//@   ghostvar rtAsked bool = false
+//@   ghostvar rt time.Duration = 0
+//@   ghostvar theCall *Call = nil
+//@   on aftercall .GetResponseTimeout : assert recv == cmd ; rt = result ; rtAsked = true
+//@   on call time.After : assert rtAsked && arg0 == rt
+//@   on mapupdate controlcommands.Servent.pending : theCall = value
+//@   ensures err == nil ==> theCall != nil && resp == theCall.Response
 
 // commit: one goroutine per target; each sends the single-target copy of the command made for ITS receiver and posts
 // exactly one result carrying ITS receiver; the collector files every result under the receiver it carries.
